@@ -220,3 +220,6 @@ ENGINES[:] = [
 NOTES = ("Static analysis only; nothing of /repo is imported or executed: the analyser walks the ast of the functions found in the source "
          "(abstract interpretation on lock-step word classes) and uses PLY's table generator as a library. See DESIGN.md, in particular section 9 (as built). "
          "Seeded changes and behaviour-preserving refactorings used to test the checks both ways: /verif/seeded (tools/seedcheck.py, tools/benigncheck.py).")
+
+CHECKS["C16"]["text"] += " In addition the core-column, sequence and dialect-clause fixed points show that on every derivation of those fragments the parser always has an action, the lexer meets no unknown symbol and no semantic action raises: supported DDL of these fragments reaches neither error hook (O-accept / O-raise)."
+CHECKS["C16"]["engine"] += " + E3 x E4 (O-accept / O-raise over the core fragments)"
